@@ -368,6 +368,12 @@ def run_task(task):
     newphi = pr.method('SSAStatement', 'Statement', 'new_phi_statement', file_hint='ssa_impl')
     R(r'<<Cfg as (?:\w+::)*SSAConfig>::Statement as (?:\w+::)*SSAStatement<Cfg>>::new_phi_statement', lambda ex, a, m: ex.call_mir(newphi, list(a)))
 
+    def claim_key(c):
+        kind, use = c
+        use = deref(use)
+        try: return (kind, ir.get(ir.get(use, 'name'), 'name').concrete(), str(ir.get(ir.get(use, 'name'), 'version')), ir.get(ir.get(use, 'meta'), 'location').f[0])
+        except Exception: return (kind, repr(use)[:80])
+
     def cap(kindname):
         def f(ex, a, m):
             ex.notes['claims'].append((kindname, deref(a[0]))); return Opaque('report', kindname)
@@ -440,6 +446,17 @@ def run_task(task):
             ex.call_mir(cfg_degrees, [Ref(ccell, 0)])
             ex.notes['cfg'] = ccell[0]; return 'degrees'
         ex.call_mir(side, [Ref(ccell, 0)])
+        if task.get('orders'):
+            # C17: the same pass under other iteration orders of every HashMap / HashSet must make the same multiset of claims
+            first = sorted(claim_key(c) for c in ex.notes['claims'])
+            for order in ('reverse', 'rotate'):
+                ex.notes['claims'] = []; ex.h.notes['hash_order'] = order
+                try: ex.call_mir(side, [Ref(ccell, 0)])
+                finally: ex.h.notes['hash_order'] = None
+                got = sorted(claim_key(c) for c in ex.notes['claims'])
+                ex.oblige(got == first, 'order-dependent', 'the side-effect pass makes the same claims when every hash map / set is iterated in %s order (insertion order: %s, %s: %s) on %s' % (order, first, order, got, describe(ex.notes['sk'], ex.notes['kinds'], ex.notes['conds'])))
+            ex.notes['claims'] = []
+            return 'orders'
         return 'ok'
 
     def post_values(ex):
@@ -658,6 +675,7 @@ def run_task(task):
         ex.oblige(True, 'claims', 'every degree bound on this program checked (%d claim instances)' % ninst[0])
 
     def post(ex, res):
+        if res == 'orders': return
         if res == 'values': return post_values(ex)
         if res == 'degrees': return post_degrees(ex)
         if res != 'ok': return
